@@ -180,18 +180,18 @@ func (e *Ev) Flush() {
 	}
 	_ = os.WriteFile(out+".hashes", hs, 0o644)
 	doc := map[string]any{
-		"property_id":       e.Prop,
-		"evaluations":       e.evaluations,
-		"distinct_shard":    len(e.nontriv),
-		"labels":            e.labels,
-		"samples":           e.samples,
-		"exhaustive":        e.exhaustive,
-		"rapid_runs":        e.rapidRuns,
-		"violations":        e.violations,
+		"property_id":         e.Prop,
+		"evaluations":         e.evaluations,
+		"distinct_shard":      len(e.nontriv),
+		"labels":              e.labels,
+		"samples":             e.samples,
+		"exhaustive":          e.exhaustive,
+		"rapid_runs":          e.rapidRuns,
+		"violations":          e.violations,
 		"known_finding_cases": e.kfCases,
-		"excluded_dont_care": e.excluded,
-		"notes":             e.notes,
-		"wall_s":            time.Since(e.start).Seconds(),
+		"excluded_dont_care":  e.excluded,
+		"notes":               e.notes,
+		"wall_s":              time.Since(e.start).Seconds(),
 	}
 	b, err := json.MarshalIndent(doc, "", " ")
 	if err != nil {
@@ -291,7 +291,9 @@ type enumBudget struct {
 	n    int
 }
 
-func (e *Ev) enum(t *testing.T) *enumBudget { return &enumBudget{e: e, t: t, left: envInt("VERIF_ENUM_LIMIT", 3)} }
+func (e *Ev) enum(t *testing.T) *enumBudget {
+	return &enumBudget{e: e, t: t, left: envInt("VERIF_ENUM_LIMIT", 3)}
+}
 
 // Check records v for an enumerated case; returns false when the enumeration
 // should stop.
